@@ -1,9 +1,9 @@
 /-
 Model driver for C11 (formatter). Requests:
 
-  fparse <g1> <cp>*
-      `StringFormatOptions::parse` on the format string with code points `cp*`, whose first
-      grapheme cluster has `g1` code points. Response
+  fparse <g1> <g2> <cp>*
+      `StringFormatOptions::parse` on the format string with code points `cp*`, whose first two
+      grapheme clusters have `g1` and `g2` code points (0 = absent). Response
         ok <align> <minWidth|-> <precision|-> <fill cps a,b,..|-> <repr|-> => <rendered cps a,b,..>
         err <kind>[:<cp>]
       (after `=>`: `render_format_options` of the parsed options.)
@@ -41,11 +41,11 @@ def errStr : FmtOptions.Err → String
 
 def handleFparse (args : List String) : String :=
   match args.map String.toNat? with
-  | some g1 :: cps =>
+  | some g1 :: some g2 :: cps =>
     if cps.any Option.isNone then "bad-request"
     else
       let s := cps.filterMap id
-      match FmtOptions.parse s g1 with
+      match FmtOptions.parse s g1 g2 with
       | .error e => errStr e
       | .ok o =>
         let fill := match o.fill with | some f => joinNats f | none => "-"
